@@ -15,6 +15,7 @@ PKGDIR=$(grep -m1 '^+++ b/' $SW/patch.diff | sed 's|+++ b/||' | xargs dirname)
 # the demo test lives next to the package's tests (the README says where); find the package by its `package` clause + path hint
 DEMODIR=$(grep -l "zz_seed_demo_test.go" -r $SW/README.md >/dev/null 2>&1; grep -o '[a-zA-Z0-9_/.-]*zz_seed_demo_test.go' $SW/README.md | grep -v '^/tmp/seedwork' | head -1 | sed 's|^/tmp/seed[234]\?-[A-Z0-9]*/||' | xargs dirname 2>/dev/null)
 [ -z "$DEMODIR" ] || [ "$DEMODIR" = "." ] && DEMODIR=$PKGDIR
+[ -n "${SEED_DEMODIR:-}" ] && DEMODIR=$SEED_DEMODIR   # override when the README heuristics pick the wrong package
 echo "package dir: $PKGDIR ; demo dir: $DEMODIR"
 cp $DEMO $DEMODIR/zz_seed_demo_test.go
 if grep -qE "^func \(.*TestSuite\) Test" $DEMO; then RUNARGS="-run Test.*Suite -testify.m SeedDemo"; else RUNARGS="-run SeedDemo"; fi
